@@ -250,7 +250,12 @@ pub fn cycle_reference(
         // token positions are relative to the body: shift by the leading '='
         let token_start = marked.start.max(0) as usize + 1;
         let token_end = marked.end.max(0) as usize + 1;
-        if token_start > selection_end || selection_start > token_end {
+        // the token span can include leading whitespace, which is not part of the reference
+        let leading_whitespace = body[token_start - 1..token_end - 1]
+            .iter()
+            .take_while(|c| c.is_whitespace())
+            .count();
+        if token_start + leading_whitespace > selection_end || selection_start > token_end {
             continue;
         }
         result.extend_from_slice(&body[copied..token_start - 1]);
